@@ -620,6 +620,15 @@ static Space make_space(const std::string& id) {
       S.ops.push_back(opGetVec(0, vn)); }
     if (EVAL_OF.count(sol)) S.ops.push_back(opEval(0, EVAL_OF[sol].first, EVAL_OF[sol].second, 0));  // evaluators use the values (and vector lengths) last set
     if (!d.vn.empty()) { S.ops.push_back(opSetVec(0, "no_such_vector", 2)); S.ops.push_back(opGetVec(0, "no_such_vector")); S.ops.push_back(mk(DISPLAYVEC, 0)); }
+  } else if (id == "c11s") {
+    // parameter-store alphabet for the all-sequences exploration (no state merging) on one solution, both registries
+    std::string sol = g_solution; S.solutions = {sol}; defaults_for(sol); const Sol& d = DEFAULTS[0][sol];
+    S.prefix = {opInit(0, "s", sol), opInit(1, "s", sol)};
+    std::string p0 = d.pn.empty() ? "nosuch" : d.pn.front(), p1 = d.pn.size() > 1 ? d.pn.back() : p0;
+    S.ops = {opSet(0, p0, 1.5L), opSet(0, p1, (LD)MARKER), opGet(0, p0), mk(PURGE, 0), mk(INITPARAM, 0), mk(SANITY, 0), opInit(0, "s", sol), opSet(1, p0, 1.5L), mk(PURGE, 1)};
+    if (EVAL_OF.count(sol)) S.ops.push_back(opEval(0, EVAL_OF[sol].first, EVAL_OF[sol].second, 0));
+    if (!d.vn.empty()) { S.ops.push_back(opSetVec(0, d.vn.front(), 3)); S.ops.push_back(opSetVecRel(0, d.vn.front(), 1)); S.ops.push_back(opGetVec(0, d.vn.front())); }
+    if (g_tier) { S.ops.push_back(mk(DISPLAY, 0)); S.ops.push_back(opGet(1, p0)); }
   } else if (id == "c11l") {
     // the long double registry's scalar store: the decimal literal -12345.67L is classified as "uninitialised" by sanity_check but is not
     // bit-equal to the marker the library writes ((long double)(double)-12345.67)
